@@ -412,6 +412,41 @@ func init() {
 					r.ok(key, fnName(fn), c.pos(upd.Pos()), "crc = crc32.Update(crc, IEEETable, b[:n]); n += n; returns (n, err)")
 				}
 			}
+			// newCountHashWriter hands out a writer whose CRC and count start at zero
+			nw := c.MustFn("newCountHashWriter")
+			keyN := "newCountHashWriter/starts-at-zero"
+			okZero := true
+			whyZero := ""
+			for _, b := range nw.Blocks {
+				ret, isRet := b.Instrs[len(b.Instrs)-1].(*ssa.Return)
+				if !isRet {
+					continue
+				}
+				rv := ret.Results[0]
+				_, fresh := rv.(*ssa.Alloc)
+				for _, f := range []string{crcF, cntF} {
+					sts := storesToFieldOf(nw, rv, f)
+					if fresh && len(sts) == 0 {
+						continue // zero value of a fresh allocation
+					}
+					zeroed := false
+					for _, st := range sts {
+						if k, isK := constInt(st.Val); isK && k == 0 && before(st, ret) {
+							zeroed = true
+						} else {
+							okZero, whyZero = false, "field ."+f+" of the returned writer is set to "+st.Val.String()
+						}
+					}
+					if !fresh && !zeroed {
+						okZero, whyZero = false, "the returned writer is not freshly allocated and its ."+f+" is not reset to 0: a recycled writer continues the CRC/count of its previous use"
+					}
+				}
+			}
+			if okZero {
+				r.ok(keyN, "newCountHashWriter", c.pos(nw.Pos()), "returned writer has crc = 0 and count = 0")
+			} else {
+				r.bad(keyN, "newCountHashWriter", c.pos(nw.Pos()), whyZero)
+			}
 			r.ok("(*countHashWriter).Count/returns-count", "(*countHashWriter).Count", "-", "returns the byte count field ."+cntF+" that Write advances")
 			r.ok("(*countHashWriter).Sum32/returns-crc", "(*countHashWriter).Sum32", "-", "returns the running CRC field ."+crcF+" that Write updates")
 		},
